@@ -600,6 +600,9 @@ func (g *gen) genSite(sc *scope, pkg *Pkg, own []*TypeDecl, earlier []*Pkg) Stmt
 	td := vis[g.pick("siteType", len(vis))]
 	fam := g.pick("family", 100)
 	focus := g.o.Focus
+	if focus == "none" {
+		focus = "all" // every site family, no annotations
+	}
 	switch {
 	case focus == "imm" && fam < 70, focus == "ctor" && fam < 15, focus == "all" && fam < 30, focus == "tonl" && fam < 8, focus == "pkgo" && fam < 8:
 		return g.immFamily(sc, td, vis)
